@@ -728,6 +728,7 @@ class AgreementMonitor(Monitor):
         w.on_hook('force_process_state', self.on_forced)
         w.listeners.append(self.on_event)
         self.blind_forced = {}  # namespec -> [(vt, sender nick, hosts not seen active)]
+        self.sighted_forced = {}  # namespec -> [(vt, sender nick, instances where the forcer lists it running)]
         self.forced_by = {}     # namespec -> nicks that forced a stopped-like state for it
         self.forced_at = {}     # namespec -> [(time, nick)]
         self.spawned_at = {}    # (nick, namespec) -> time of the last spawn
@@ -772,6 +773,11 @@ class AgreementMonitor(Monitor):
         if blind and int(forced_state) not in RUNNING_STATES:
             self.blind_forced.setdefault(process.namespec, []).append((vt(w), inst.nick, blind))
             self.count('forced_states_without_seeing_the_host')
+        elsewhere = sorted(i for i in listed if i != identifier)
+        if elsewhere and int(forced_state) not in RUNNING_STATES:
+            # the forcer gives up a request towards one instance while it lists the process running on ANOTHER one
+            self.sighted_forced.setdefault(process.namespec, []).append((vt(w), inst.nick, elsewhere))
+            self.count('forced_states_while_a_copy_is_listed_elsewhere')
 
     def forced_mechanism(self, nick, namespec):
         """ The instance displays a forced stopped-like state over a process that truly runs, and that state has been
@@ -786,6 +792,8 @@ class AgreementMonitor(Monitor):
                 process.state in RUNNING_STATES:
             if self.blind_forced.get(namespec):
                 return ':state-forced-over-a-running-copy-unknown-to-the-forcer'
+            if self.sighted_forced.get(namespec):
+                return ':state-forced-for-a-given-up-request-while-a-copy-runs-elsewhere'
             # a copy spawned after (or at the instant of) a forced state emitted by another instance
             hosts = [i for i in w.live() if i.running_truth().get(namespec) in RUNNING_STATES]
             for t, forcer in self.forced_at.get(namespec, ()):
